@@ -135,7 +135,7 @@ fn inline(r: &mut Rng, depth: usize, multi: bool) -> String {
         20 => format!("[{}][{}]", sub(r), r.ps(&["r1", "R1", "nope"])),
         21 => r.ps(&["[r1]", "[r1][]", "[nope]"]).to_string(),
         22 => r.ps(&["www.example.com/a?b=c", "http://x.y/z", "https://a.b", "a@b.co", "ftp://f.g/h"]).to_string(),
-        23 => format!("[^{}]", r.ps(&["a", "b", "nope"])),
+        23 => format!("[^{}]{}", r.ps(&["a", "b", "nope"]), r.ps(&["", "", "", "[b]", "[]", "[^b]", "[r1]", "(u)", "[nope]"])),
         24 => r.ps(&["\\*", "\\_", "\\\\", "\\[", "&amp;", "&#35;", "&copy;", "&nosuch;"]).to_string(),
         25 => format!("{}{}{}", words(r), brk(r), words(r)),
         26 => format!("${}$", r.ps(&["x", "a+b", "1"])),
@@ -156,6 +156,8 @@ fn inlines(r: &mut Rng, multi: bool) -> String {
         if i > 0 {
             if multi && r.chance(1, 3) {
                 s.push_str(brk(r));
+            } else if r.chance(1, 7) {
+                // adjacent constructs (a bracket group right after a reference, emphasis against a link, ...)
             } else {
                 s.push(' ');
             }
